@@ -59,7 +59,10 @@ def template(draw):
     if kind in ("leak", "mixed"):
         leak = pick(2, 6)
         comp = draw(st.sampled_from(["lfor", "gfor", "sfor"]))
-        clause = " ".join(":do (setx %s (+ i %d))" % (n, j) for j, n in enumerate(leak))
+        # some names are assigned more than once (a name list built through a set loses its order exactly then)
+        assigned = list(leak) + [draw(st.sampled_from(leak)) for _ in range(draw(st.integers(0, 3)))]
+        assigned = list(draw(st.permutations(assigned)))
+        clause = " ".join(":do (setx %s (+ i %d))" % (n, j) for j, n in enumerate(assigned))
         form = "(list (%s i (range 3) %s i))" % (comp, clause)
         if draw(st.booleans()):
             lines.append("(defn leaky [] (setv w %s) [w %s])" % (form, " ".join(leak)))
